@@ -340,7 +340,7 @@ int openssl_process_rsa(json_t *jwk, jwk_item_t *item)
 	}
 
 	/* Check alg to see if we can sniff RSA vs RSA-PSS */
-	if (alg) {
+	if (alg && json_is_string(alg)) {
 		alg_str = json_string_value(alg);
 
 		if (alg_str[0] == 'P')
